@@ -43,7 +43,9 @@ WStep(cfg, dl, st, w) ==
       def == FromGo(Defs[d])
       c == IF ~w.ok
            THEN << <<"no_panic", ~w.panic>>,
-                   <<"refused_write_emits_nothing", w.out = <<>> >>,
+                   \* an item the link refuses puts nothing on the link; when the transport fails a write after taking part of
+                   \* it (w.took bytes), that part is all there is: the rest is not pushed out behind the caller's back
+                   <<"refused_write_emits_nothing", Len(w.out) = (IF w.inj /\ w.took > 0 THEN w.took ELSE 0)>>,
                    <<"valid_write_accepted", ~enc \/ w.inj>> >>
            ELSE << <<"no_panic", ~w.panic>>,
                    <<"v1_id_above_255_refused", ~(cfg.v = 1 /\ WId(w) > 255)>>,
